@@ -52,10 +52,16 @@ class TablesAdapter(Adapter):
             g.extend(names)
             return g
         if len(names) == 1 and self.rng.random() < 0.5:
-            return names[0]                      # bare string key
+            import numpy as np
+            return names[0] if self.rng.random() < 0.8 else np.str_(names[0])       # bare string key (str or numpy string)
         r = self.rng.random()
         if r < 0.3:
             return tuple(names)
+        if r < 0.4:
+            import numpy as np
+            return np.array(names)               # a column of type names out of an array
+        # (lazy iterables - generators, map objects - are NOT used as keys: the statement speaks of single keys and lists of keys, and
+        # the shipped PairTable consumes a generator given as the second key during the first pass of its outer loop)
         return names
 
     def step(self, w, l):
